@@ -55,6 +55,36 @@ def slotTrace (m : Mode) (thr : XF) (itv : Nat) (init : XF) (errs : List XF) : J
       traceWith (π := Vector Nat 2) selectWhere (fun t => #v[t, t]) (fun p => natsToJson p.toList)
         thr itv init errs
 
+/-- replay the whole state (all slots, one counter) with `stateStep`: `errs[t][k]` is the error reported for slot `k`
+at step `t`; tokens as in `traceWith`. -/
+def stateTraceWith {π : Type} [BEq π] (sel : Selector π) (tok : Nat → π) (show_ : π → Json)
+    (thr : XF) (itv : Nat) (inits : List XF) (errs : List (List XF)) : Json :=
+  let rec go (t : Nat) (ss : List (Slot π)) (es : List (List XF)) (acc : Array Json) : Array Json :=
+    match es with
+    | [] => acc
+    | row :: es =>
+      let ins : List (Inp π) := row.map fun e => { cand := tok (t + 1), err := e, junk := tok (1000000 + t) }
+      let ss' := stateStep sel thr itv t ss ins
+      let o := obj [
+        ("perform", Json.bool (performStep itv t)),
+        ("slots", Json.arr ((List.zipWith (fun (s s' : Slot π) => obj [
+            ("kept", Json.bool (s'.precond == s.precond)),
+            ("stored", show_ s'.precond),
+            ("err", xfToJson s'.err)]) ss ss').toArray))]
+      go (t + 1) ss' es (acc.push o)
+  Json.arr (go 0 (inits.map fun e => { precond := tok 0, err := e }) errs #[])
+
+def stateTrace (m : Mode) (thr : XF) (itv : Nat) (inits : List XF) (errs : List (List XF)) : Json :=
+  match m with
+  | .replicated =>
+      stateTraceWith (π := Nat) select (fun t => t) (fun p => natsToJson [p]) thr itv inits errs
+  | .quantized =>
+      stateTraceWith (π := Nat × Nat × Nat) selectTriple (fun t => (t, t, t))
+        (fun p => natsToJson [p.1, p.2.1, p.2.2]) thr itv inits errs
+  | .sharded =>
+      stateTraceWith (π := Vector Nat 2) selectWhere (fun t => #v[t, t]) (fun p => natsToJson p.toList)
+        thr itv inits errs
+
 def ops : List Op := [
   ("xf_decode", fun j => do
     let b32 ← asListOf asBits (fieldD j "bits32" (Json.arr #[]))
@@ -74,7 +104,10 @@ def ops : List Op := [
                ("select", toJson (select e thr (1 : Nat) 0)),
                ("triple", let r := selectTriple e thr ((1 : Nat), (1 : Nat), (1 : Nat)) (0, 0, 0)
                           natsToJson [r.1, r.2.1, r.2.2]),
-               ("where", natsToJson (selectWhere e thr (#v[1, 1] : Vector Nat 2) #v[0, 0]).toList)])),
+               ("where", natsToJson (selectWhere e thr (#v[1, 1] : Vector Nat 2) #v[0, 0]).toList),
+               -- two slots through the vectorised sharded gate: slot 0 with this error, slot 1 with error = threshold
+               ("sharded", listToJson (fun (v : Vector Nat 2) => natsToJson v.toList)
+                  (shardedGate thr [e, thr] [#v[0, 0], #v[10, 10]] [#v[1, 1], #v[11, 11]]))])),
   ("blend", fun j => do
     -- `pred*old + (1-pred)*new` at XF (exact) and at Float, and the select it replaced
     let e ← getXF32 j "err"
@@ -93,7 +126,15 @@ def ops : List Op := [
     let init ← getXF32 j "init_err"
     let errs ← asListOf asBits (← field j "errs")
     if itv = 0 then throw "itv must be >= 1"
-    pure (obj [("steps", slotTrace m thr itv init (errs.map XF.ofBits32))]))
+    pure (obj [("steps", slotTrace m thr itv init (errs.map XF.ofBits32))])),
+  ("state_trace", fun j => do
+    let m ← parseMode (← getStr j "mode")
+    let thr ← getXF32 j "thr"
+    let itv ← getNat j "itv"
+    let inits ← asListOf asBits (← field j "init_errs")
+    let errs ← asListOf (asListOf asBits) (← field j "errs")
+    if itv = 0 then throw "itv must be >= 1"
+    pure (obj [("steps", stateTrace m thr itv (inits.map XF.ofBits32) (errs.map (·.map XF.ofBits32)))]))
 ]
 
 end PrecondVerif.Drv.C03
